@@ -203,7 +203,10 @@ func (c *Ctx) checkRecurrence(rule string, fn *ssa.Function, exponential bool) {
 	var want []string
 	what := ""
 	if exponential {
-		want = []string{"ACC{S;*(ACC,W)}", "*(POW(W,I),S)"}
+		// the recurrence itself (start, then repeatedly times factor); start * Pow(factor, i) is equal only
+		// in exact arithmetic - in float64 it differs from the recurrence by ulps from some index on, so
+		// the bounds (and the bucket a sample on a bound lands in) change
+		want = []string{"ACC{S;*(ACC,W)}"}
 		what = "element 0 = start, element i+1 = element i * factor"
 	} else {
 		want = []string{"+(*(I,W),S)", "ACC{S;+(ACC,W)}"}
